@@ -74,6 +74,52 @@ def run(ctx):
         ctx.check('R6.2', isinstance(v, FuncTok) and bool(ctx.repo.mod(v.module).func(v.qualname)), 'fst', '_LOC_FUNCS', f'{getattr(k, "name", k)} -> {getattr(v, "name", v)}',
                   'location function does not resolve')
 
+    # ---- R6.7 -------------------------------------------------------------------------------------------------------
+    ctx.rule('R6.7', 'the location filters of the traversal (`all=False`, `all=\'loc\'`) let through only classes that have a location: position '
+                     'attributes from the parser, a computed-location function, or a whole-source root', 2)
+    located = {c.name for c in F if getattr(c, 'pyclass', None) is not None and c.is_ast and
+               (getattr(c.pyclass, '_attributes', ()) or c.name in have or c.name in ('Module', 'Interactive', 'Expression', 'FunctionType'))}
+    all_leaf = {c.name for c in F if getattr(c, 'pyclass', None) is not None and c.is_ast}
+    n67 = 0
+    for fi in ctx.repo.funcs('fst_traverse', '_check_all_param') + ctx.repo.funcs('fst_traverse', '_all_param_func'):
+        for st in ast.walk(fi.node):
+            if not isinstance(st, ast.If):
+                continue
+            t = st.test
+            which = None
+            if isinstance(t, ast.Compare) and len(t.ops) == 1 and isinstance(t.left, ast.Name):
+                if isinstance(t.ops[0], ast.Eq) and isinstance(t.comparators[0], ast.Constant) and t.comparators[0].value == 'loc':
+                    which = "'loc'"
+                elif isinstance(t.ops[0], ast.Is) and isinstance(t.comparators[0], ast.Constant) and t.comparators[0].value is False:
+                    which = 'False'
+            if which is None:
+                continue
+            # the class set the arm excludes: `<node class> not in SET`
+            sets = [x for b in st.body for x in ast.walk(b) if isinstance(x, ast.Compare) and len(x.ops) == 1 and isinstance(x.ops[0], ast.NotIn)]
+            if not sets:
+                # the arm hands the decision to a named predicate of the module (`return _check_all_loc(fst_)` / `return _check_all_loc`)
+                for b in st.body:
+                    for x in ast.walk(b):
+                        if isinstance(x, ast.Name) and isinstance(x.ctx, ast.Load):
+                            for g in ctx.repo.find_funcs('fst_traverse', x.id):
+                                if not isinstance(g.node, ast.Lambda) and g.key != fi.key:
+                                    sets += [y for y in ast.walk(g.node) if isinstance(y, ast.Compare) and len(y.ops) == 1 and isinstance(y.ops[0], ast.NotIn)]
+            if not sets:
+                continue
+            excluded = set()
+            for x in sets:
+                excluded |= T.classes_mentioned(ctx, 'fst_traverse', x.comparators[0])
+            if not excluded:
+                raise AnalysisError(f'{fi.key}: the class set of the all={which} arm did not evaluate')
+            n67 += 1
+            bad = sorted((all_leaf - excluded) - located)
+            ctx.check('R6.7', not bad, fi.module, fi.qualname, f'all={which}: classes let through without a location {bad}',
+                      f'the all={which} filter promises nodes that have a location but lets {bad} through: they have neither parser positions nor a '
+                      f'computed-location function, `.loc` / `.bloc` is None for them and the bound searches that step with this filter '
+                      f'(`_next_bound_step`) subscript it', st.lineno, sample={'filter': which, 'excluded': len(excluded)})
+    if n67 < 2:
+        raise AnalysisError(f'only {n67} location-filter arms found in the two encodings of the `all` filter')
+
     # ---- R6.3 -------------------------------------------------------------------------------------------------------
     ctx.rule('R6.3', 'a store to X.end_col_offset guarded by a line test is guarded by X.end_lineno (X.col_offset by X.lineno)', 4)
     n = 0
@@ -447,6 +493,27 @@ def check_lexicographic(ctx):
                       'line and column are compared independently (`l1 < l2 or c1 < c2` style): the result is wrong whenever the position on the '
                       'later line has the smaller column; compare `(line, col)` tuples or guard the column test with line equality', b.lineno,
                       sample={'function': fi.key, 'compare': norm(b, 100), 'reviewed': rv})
+    # statement form: two corners put "in order" by swapping lines under a line comparison and columns under a column comparison, each on its own
+    from ..struct import parent_map, enclosing_tests
+    for fi in ctx.repo.all_funcs():
+        if isinstance(fi.node, ast.Lambda):
+            continue
+        par = None
+        for st in walk_no_nested(fi.node):
+            if not (isinstance(st, ast.If) and _cmpkind(st.test) == ('C', 'ord')):
+                continue
+            names = {norm(st.test.left), norm(st.test.comparators[0])}
+            assigned = {norm(t) for b in st.body for x in ast.walk(b) if isinstance(x, ast.Assign)
+                        for tt in x.targets for t in (tt.elts if isinstance(tt, ast.Tuple) else [tt])}
+            if not names <= assigned:
+                continue
+            par = par or parent_map(fi.node)
+            guarded = any(pol and _cmpkind(t) == ('L', 'eq') for t, pol in enclosing_tests(fi.node, st, par))
+            n += 1
+            ctx.check('R6.5', guarded, fi.module, fi.qualname, f'if {norm(st.test, 60)}: <both columns reassigned>',
+                      'two columns are exchanged / normalised because one is smaller than the other, without knowing that they are on the same line: for a '
+                      'location that spans lines and ends at a smaller column than it starts this reorders a correct location', st.lineno,
+                      sample={'function': fi.key, 'compare': norm(st.test, 60), 'form': 'statement'})
     if n < 15:
         raise AnalysisError(f'only {n} position comparisons found')
 
